@@ -64,8 +64,32 @@ def judge(ln):
     # the removed collinear input points do not change the area: compare with the input outline as well
     Vin = vector_area_rel(pts)
     area = to_float(L.area_tok)
-    if not rel(area, true_area, tol): return ('fail', 'area', 'area %.17g vs exact %.17g' % (area, true_area))
-    if not rel(fnorm(Vin), true_area, max(tol, 1e-7)): return ('fail', 'area-vs-input-outline', 'stored outline encloses %.17g, input outline %.17g' % (true_area, fnorm(Vin)))
+    # rounding allowance: the shoelace sum of n cross products of coordinates up to M carries an absolute error of the
+    # order n*M^2*ulp whatever the size of the outline, so a small outline far from the origin cannot meet a relative
+    # tolerance on its area (the property's area is 'true area up to rounding')
+    M_ = max([abs(float(c)) for p_ in L.pts for c in p_] + [1.0])
+    allow = 16 * len(L.pts) * M_ * M_ * (2.0 ** -23 if FMT.name == 'f32' else 2.0 ** -52)
+    if not rel(area, true_area, tol) and abs(area - float(true_area)) > allow:
+        return ('fail', 'area', 'area %.17g vs exact %.17g' % (area, true_area))
+    # `is_collinear` drops a vertex b between a and c when |ab x bc| < 1e-5, i.e. when the triangle a,b,c has less than
+    # 0.5e-5 of area: every dropped vertex may change the enclosed area by that much in absolute terms (tolerance band of
+    # the code's own redundancy test; it only matters for small outlines, where 0.5e-5 is not negligible)
+    dropped = max(len(pts) - len(L.pts), 0)
+    # is some input vertex inside the band of the code's redundancy test (not collinear, yet |ab x bc| < 2e-5)?  Whether it is
+    # dropped then depends on the start vertex and on earlier drops, and perimeter and area move by the size of the band
+    def _band(P):
+        m_ = len(P)
+        for k_ in range(m_):
+            a_, b_, c_ = P[k_ - 1], P[k_], P[(k_ + 1) % m_]
+            ab_ = tuple(float(b_[t] - a_[t]) for t in range(3)); bc_ = tuple(float(c_[t] - b_[t]) for t in range(3))
+            cr_ = (ab_[1] * bc_[2] - ab_[2] * bc_[1], ab_[2] * bc_[0] - ab_[0] * bc_[2], ab_[0] * bc_[1] - ab_[1] * bc_[0])
+            x_ = math.sqrt(sum(t * t for t in cr_))
+            la_ = math.sqrt(sum(t * t for t in ab_)); lb_ = math.sqrt(sum(t * t for t in bc_))
+            if 1e-7 * la_ * lb_ < x_ < 2e-5: return True
+        return False
+    band_in = _band(pts)
+    if not rel(fnorm(Vin), true_area, max(tol, 1e-7)) and abs(float(fnorm(Vin)) - float(true_area)) > 1e-5 * dropped + allow:
+        return ('fail', 'area-vs-input-outline', 'stored outline encloses %.17g, input outline %.17g' % (true_area, fnorm(Vin)))
     per = sum(fnorm(sub(L.pts[k], L.pts[(k + 1) % len(L.pts)])) for k in range(len(L.pts)))
     perimeter = to_float(L.perimeter_tok)
     if not rel(perimeter, per, tol): return ('fail', 'perimeter', 'perimeter %.17g vs %.17g' % (perimeter, per))
@@ -89,20 +113,24 @@ def judge(ln):
     if pend is not None:
         fid, variant = pend
         if variant == 'base' or fid not in _fam:
-            _fam[fid] = dict(area=area, per=perimeter, n=n, variant=variant, cen=cen, nv=len(L.pts))
+            _fam[fid] = dict(area=area, per=perimeter, n=n, variant=variant, cen=cen, nv=len(L.pts), allow=allow, dropped=dropped, band=band_in)
         else:
             b = _fam[fid]
-            if not rel(area, b['area'], max(tol, 1e-9) * 100): return ('fail', 'area-not-invariant:' + variant, 'area %.17g vs base %.17g' % (area, b['area']))
+            if not rel(area, b['area'], max(tol, 1e-9) * 100) and abs(area - b['area']) > allow + b.get('allow', 0.0) + 1e-5 * (dropped + b.get('dropped', 0)):
+                return ('fail', 'area-not-invariant:' + variant, 'area %.17g vs base %.17g' % (area, b['area']))
+            if not rel(perimeter, b['per'], max(tol, 1e-9) * 100) and (band_in or b.get('band')): return ('skip', 'band')
             if not rel(perimeter, b['per'], max(tol, 1e-9) * 100): return ('fail', 'perimeter-not-invariant:' + variant, 'perimeter %.17g vs base %.17g' % (perimeter, b['per']))
             if variant in ('shift', 'collinear') and b['variant'] == 'base':
                 if sum(n[k] * b['n'][k] for k in range(3)) < 1 - 1e-6: return ('fail', 'normal-not-invariant:' + variant, 'normal changed')
             if variant in ('shift', 'collinear', 'reverse') and b['variant'] == 'base':
                 # the same outline, re-started / reversed / with redundant collinear points: the same essential vertices
                 if len(L.pts) != b['nv']:
+                    if band_in or b.get('band'): return ('skip', 'band')
                     return ('fail', 'vertex-count-not-invariant:' + variant, '%d stored vertices vs %d for the base outline' % (len(L.pts), b['nv']))
                 if cen is not None and b['cen'] is not None:
                     sc = max(max(abs(c) for c in cen), 1.0)
                     if any(abs(cen[k] - b['cen'][k]) > max(tol, 1e-9) * 100 * sc for k in range(3)):
+                        if band_in or b.get('band'): return ('skip', 'band')
                         return ('fail', 'centroid-not-invariant:' + variant, 'centroid %s vs base %s' % (cen, b['cen']))
             if variant == 'reverse' and b['variant'] == 'base':
                 if sum(n[k] * b['n'][k] for k in range(3)) > -1 + 1e-6: return ('fail', 'normal-not-flipped:reverse', 'normal did not flip')
